@@ -23,7 +23,7 @@ func init() {
 				"C16.topo (the topological listing has no gaps: InsertEvent consumes a topological index only after Store.SetEvent stored the event under it; dbSetEvents writes the key of exactly that index; Bootstrap reads consecutive keys), " +
 				"C16.fields (every field of a persisted type is serialised by its codec — exported, untagged — or is a listed cache that is recomputed; on the pinned tree RoundInfo.decided / queued are neither: known finding F-C16-2), C16.codec (dbSetX marshals with T.Marshal[DB] and dbGetX unmarshals with the matching T.Unmarshal[DB] of the same type), C16.sibling (thorough: the mobile store equals badger_store.go modulo the import path). " +
 				"NOT decided: behaviour after eviction and reopen as a value-level map model; durability; the five dropped store errors reported by errcheck in hashgraph (read one by one: none loses persisted content on this property's paths)."},
-		Rules:    []ruleFunc{c16readthrough, c16writethrough, c16keys, c16codec, func(p *Prog, r *Report) { topoRule(p, r, "C16.topo") }, c16fields, c16lru, func(p *Prog, r *Report) { keyArgRule(p, r, "C16.keyarg") }, func(p *Prog, r *Report) { replayRule(p, r, "C16.replay") }, c16errs, c16roll},
+		Rules:    []ruleFunc{c16readthrough, c16writethrough, c16keys, c16codec, func(p *Prog, r *Report) { topoRule(p, r, "C16.topo") }, c16fields, c16lru, func(p *Prog, r *Report) { keyArgRule(p, r, "C16.keyarg") }, func(p *Prog, r *Report) { replayRule(p, r, "C16.replay") }, c16errs, c16roll, c16dbguard},
 		Thorough: []ruleFunc{siblingRule("C16.sibling")},
 	})
 }
@@ -843,5 +843,45 @@ func rollRule(p *Prog, r *Report, rule string) {
 	}
 	if n == 0 {
 		r.Fail(rule, "RollingIndex.roll:keeps-suffix", p.pos(fn.Pos()), fnName(fn), "roll does not assign the window")
+	}
+}
+
+// C16.dbguard: whether a record still has to be written to the database is decided on the
+// DATABASE's answer. A db writer that runs only when a cache-first getter (BadgerStore.GetX /
+// InmemStore.GetX) failed is skipped whenever the value sits in the cache — which, for values the
+// store has just put there itself, is always: the record never reaches the disk.
+func c16dbguard(p *Prog, r *Report) {
+	const rule = "C16.dbguard"
+	r.Rule(rule, 10, "no database write is conditional on the failure of a cache-first lookup")
+	n := 0
+	for _, fn := range p.Mod {
+		if recvNamedSig(fn) != "BadgerStore" {
+			continue
+		}
+		for _, c := range callsIn(fn, func(f *types.Func) bool { return isDbMethod(f, "dbSet") }) {
+			n++
+			q := func(l Lit) bool {
+				v, isNil, ok := nilTest(l)
+				if !ok || isNil {
+					return false
+				}
+				gc, _ := callOf(v)
+				if gc == nil {
+					return false
+				}
+				f := calleeFunc(gc.Common())
+				if f == nil || !strings.HasPrefix(f.Name(), "Get") {
+					return false
+				}
+				rn := recvNamed(f)
+				return rn == "BadgerStore" || rn == "InmemStore" || rn == "Store"
+			}
+			g, _ := p.allPaths(c, []Pred{q}, all(1))
+			r.Check(!g, rule, fn.Name()+":"+calleeFunc(c.Common()).Name(), p.ipos(c), fnName(fn), "not conditional on a cache miss",
+				"the database write runs only when a cache-first getter failed: a value that is already in the in-memory store (e.g. the Roots SetPeerSet has just created there) is never written to the database and is gone after the store is closed and reopened")
+		}
+	}
+	if n == 0 {
+		r.Fail(rule, "db-writers", "-", "", "no db writer call found in BadgerStore")
 	}
 }
